@@ -12,6 +12,7 @@ import (
 	"io"
 	"runtime"
 	"sync"
+	"sync/atomic"
 )
 
 // countReader wraps flate.Reader, adding support for querying current offset.
@@ -213,13 +214,6 @@ func (d *decompressor) using(b Block) *decompressor { d.blk = b; return d }
 // holds a valid gzip.Header and base offset.
 func (d *decompressor) nextBlockAt(off int64, rs io.ReadSeeker) *decompressor {
 	d.err = nil
-	for {
-		exists, next := d.owner.cacheHasBlockFor(off)
-		if !exists {
-			break
-		}
-		off = next
-	}
 
 	d.lazyBlock()
 
@@ -349,6 +343,11 @@ type Reader struct {
 	control chan int64
 	done    chan struct{}
 
+	// aim is the base offset of the block the read-ahead
+	// worker is preparing or has just queued, or -1 when
+	// the worker is waiting to be told where to read.
+	aim int64
+
 	current Block
 
 	// cache is the Reader block cache. If Cache is not nil,
@@ -374,6 +373,7 @@ func NewReader(r io.Reader, rd int) (*Reader, error) {
 		r: r,
 
 		head: make(chan *countReader, 1),
+		aim:  -1,
 	}
 	bg.head <- newCountReader(r)
 
@@ -413,6 +413,7 @@ func NewReader(r io.Reader, rd int) (*Reader, error) {
 			for dec := range bg.waiting {
 				var open bool
 				if next < 0 {
+					atomic.StoreInt64(&bg.aim, -1)
 					next, open = <-bg.control
 					if !open {
 						return
@@ -426,6 +427,8 @@ func NewReader(r io.Reader, rd int) (*Reader, error) {
 					default:
 					}
 				}
+				next = bg.skipCached(next)
+				atomic.StoreInt64(&bg.aim, next)
 				dec.nextBlockAt(next, nil)
 				next = dec.blk.NextBase()
 				bg.working <- dec
@@ -461,15 +464,17 @@ func (bg *Reader) Seek(off Offset) error {
 				case dec = <-bg.waiting:
 				case dec = <-bg.working:
 					blk, err := dec.wait()
+					atomic.CompareAndSwapInt64(&bg.aim, blk.Base(), -1)
 					if err == nil {
-						bg.keep(blk)
 						if blk.Base() == off.File {
 							// This decompressor had the block we
 							// wanted.
 							bg.current = blk
-							bg.control <- bg.current.NextBase()
+							bg.redirect(bg.current.NextBase())
 							bg.waiting <- dec
 							dec = nil
+						} else {
+							bg.keep(blk)
 						}
 					}
 				}
@@ -484,11 +489,7 @@ func (bg *Reader) Seek(off Offset) error {
 					nextBlockAt(off.File, rs).
 					wait()
 				if bg.dec == nil {
-					select {
-					case <-bg.control:
-					default:
-					}
-					bg.control <- bg.current.NextBase()
+					bg.redirect(bg.current.NextBase())
 					bg.waiting <- dec
 				}
 				bg.Header = bg.current.header()
@@ -626,22 +627,52 @@ func (bg *Reader) nextBlock() error {
 		bg.dec.using(bg.current).nextBlockAt(base, nil)
 		bg.current, err = bg.dec.wait()
 	} else {
-		var ok bool
-		for i := 0; i < cap(bg.working); i++ {
-			dec := <-bg.working
-			bg.current, err = dec.wait()
+		// The read-ahead worker can be out of step with the reader
+		// when blocks have been served from, or evicted from, the
+		// cache. Only wait for it when it is preparing the block we
+		// need; otherwise read the block directly and re-point it.
+		_, seeker := bg.r.(io.ReadSeeker)
+		for misses := 0; ; {
+			var dec *decompressor
+			prepared := true
+			select {
+			case dec = <-bg.working:
+			default:
+				if seeker && atomic.LoadInt64(&bg.aim) != base {
+					select {
+					case dec = <-bg.working:
+					case dec = <-bg.waiting:
+						prepared = false
+					}
+				} else {
+					dec = <-bg.working
+				}
+			}
+			if prepared {
+				blk, e := dec.wait()
+				// The worker has delivered this block; do not
+				// wait for it again.
+				atomic.CompareAndSwapInt64(&bg.aim, blk.Base(), -1)
+				if blk.Base() == base {
+					bg.current, err = blk, e
+					bg.waiting <- dec
+					break
+				}
+				if e == nil {
+					bg.keep(blk)
+				}
+				if !seeker || atomic.LoadInt64(&bg.aim) == base {
+					if misses++; misses > cap(bg.working) {
+						panic("bgzf: unexpected block")
+					}
+					bg.waiting <- dec
+					continue
+				}
+			}
+			bg.current, err = dec.using(bg.current).nextBlockAt(base, nil).wait()
+			bg.redirect(bg.current.NextBase())
 			bg.waiting <- dec
-			if bg.current.Base() == base {
-				ok = true
-				break
-			}
-			if err == nil {
-				bg.keep(bg.current)
-				bg.current = nil
-			}
-		}
-		if !ok {
-			panic("bgzf: unexpected block")
+			break
 		}
 	}
 	if err != nil {
@@ -660,6 +691,15 @@ func (bg *Reader) nextBlock() error {
 	}
 
 	return nil
+}
+
+// redirect tells the read-ahead worker to continue from base.
+func (bg *Reader) redirect(base int64) {
+	select {
+	case <-bg.control:
+	default:
+	}
+	bg.control <- base
 }
 
 // cacheSwap attempts to swap the current Block for a cached Block
@@ -689,6 +729,18 @@ func (bg *Reader) cacheSwap(base int64) bool {
 		bg.current = nil
 	}
 	return false
+}
+
+// skipCached returns the base offset of the first block at or after
+// base that the Reader's cache does not hold.
+func (bg *Reader) skipCached(base int64) int64 {
+	for {
+		exists, next := bg.cacheHasBlockFor(base)
+		if !exists || next <= base {
+			return base
+		}
+		base = next
+	}
 }
 
 // cacheHasBlockFor returns whether the Reader's cache has a block
